@@ -90,7 +90,7 @@ func (*c18aWorld) ID() string   { return "C18" }
 func (*c18aWorld) Name() string { return "c18a" }
 func (*c18aWorld) Runs(tier string) int {
 	if tier == "thorough" {
-		return 1500000
+		return 5000000
 	}
 	return 40000
 }
@@ -406,7 +406,7 @@ func (*c18bWorld) ID() string   { return "C18" }
 func (*c18bWorld) Name() string { return "c18b" }
 func (*c18bWorld) Runs(tier string) int {
 	if tier == "thorough" {
-		return 150000
+		return 600000
 	}
 	return 4000
 }
